@@ -604,6 +604,15 @@ int twice(int n) { return depth(n) + depth(n - 1); }
 empty @is_you(int n) { int[] guard = [7, 8]; write(twice(n)); write(guard[0]); write(guard[1]); }''', [[0], [1], [4], [9]]),
     ('nested_literal_calls', '''int id(int v) { int[] t = [v, v, v]; return t[2]; }
 empty @is_you(int n) { int[] a = [id(n), id(n + 1), [id(2), 4][1]]; write(a[0]); write(a[1]); write(a[2]); bool[] f = [n > 0, id(n) > 1, true, false, true, false, true, false, n == 3]; write(f[8]); }''', [[0], [3]]),
+    # finding F11: values of an array literal that need temporaries / calls while the literal already occupies the array stack
+    ('literal_value_temporaries', '''int sum3(const int[] p) { return p[0] + p[1] * 2 + p[2]; }
+int len(const byte[] p) { return p.length * 100 + p[1]; } int cnt(const bool[] p) { int c = 0; for (int i = 0; i < p.length; i += 1) { c += p[i] is int; } return c; }
+int id(int v) { return v; }
+empty @is_you(int n) { int[] keep = [5, 6];
+  write(sum3([n, (n + 1) * ((n + 2) * ((n + 3) * ((n + 4) * (n + 5)))), 7])); write(' ');
+  write(len(['a', ((n + 1) * ((n + 2) * ((n + 3) * (n + 4)))) is byte, 'c'])); write(' ');
+  write(cnt([true, (n + 1) * ((n + 2) * (n + 3)) > id(n), false, true, false, false, false, false, id(n) == (n + 0) * (1 + (n - n))])); write(' ');
+  write(sum3([id(n), sum3([n, id(id(n) + 1), 2]), 3])); write(keep[0]); write(keep[1]); }''', [[1], [3]]),
     ('byte_deepest', '''empty put(byte c) { write(c); }
 bool odd(int x, bool flip) { return (x %% 2 == 1) != flip; }
 empty @is_you(int n, int v) { bool b[n]; for (int i = 0; i < n; i += 1) { b[i] = false; } b[v] = true; for (int j = 0; j < n; j += 1) { write(b[j] is int); } put('!'); write(odd(v, false)); }''',
@@ -627,7 +636,7 @@ def sweep_family(tier):
             if m is None:
                 sizes = [5, 20, 300]
             else:
-                lo = max(1, m - (3 if tier == 'quick' else 8))
+                lo = max(1, m - (6 if tier == 'quick' else 12))
                 sizes = sorted(set(list(range(lo, m + 3)) + [m + 10, 300]))
             for s in sizes:
                 items.append(runner.Item(('sweep', name, tuple(a), s), src, sa, s=s,
